@@ -206,6 +206,7 @@ func (c *diskCache) findMissingLocalCAS(blobs []*pb.Digest) int {
 
 func (c *diskCache) containsWorker() {
 	var ok bool
+	var foundSize int64
 	for req := range c.containsQueue {
 		if req.ctx != nil {
 			select {
@@ -218,8 +219,8 @@ func (c *diskCache) containsWorker() {
 			}
 		}
 
-		ok, _ = c.proxy.Contains(req.ctx, cache.CAS, (*req.digest).Hash, (*req.digest).SizeBytes)
-		if ok {
+		ok, foundSize = c.proxy.Contains(req.ctx, cache.CAS, (*req.digest).Hash, (*req.digest).SizeBytes)
+		if ok && !isSizeMismatch((*req.digest).SizeBytes, foundSize) {
 			c.accessLogger.Printf("GRPC CAS HEAD %s OK", (*req.digest).Hash)
 			// The blob exists on the proxy, remove it from the
 			// list of missing blobs.
